@@ -157,17 +157,24 @@ claim("C03", "sibling term comparison of the point-wise table (value column) and
       "The JAX wrappers' adjoint Jacobian is the conjugate transpose (conjugate in, conjugate out), and MultiLinearEinsum looks factors up with the same precedence in value and Jacobian. Decided on expression trees taken from the source; NIFTy is not executed. Jacobians of general compositions are not decided.",
       TRUST + " sympy 1.14 (from the offline wheelhouse) as algebraic normaliser for R03.2.", "DESIGN.md section 4, C03")
 
-claim("C18", "structural checks of the mirror / zero-residual clauses (same-index flag, same residual for both pair members, negation in the JAX samplers, zero insertion for point estimates)",
+claim("C18", "structural checks of the mirror / zero-residual clauses (same-index flag, same residual for both pair members, negation in the JAX samplers, zero insertion for point estimates); role-based assembly check of the linear-residual solve with an exact linear normal form over (L, P, draws)",
       "Decides only the structural clauses of the property: mirrored samples are built as exact negatives of the same stored residual "
       "(classic: mean.flexible_addsub(residual[i], flag[i]); JAX: concatenate_zip(s, -s) / negation of the odd rows) and point-estimated "
-      "parameters receive zero residuals on every return path. That the residuals have covariance equal to the inverse metric is "
-      "statistical and not decided.", TRUST, "DESIGN.md section 9.6")
+      "parameters receive zero residuals on every return path; and the assembly clause behind 'covariance = inverse metric': linear "
+      "residuals are M^-1 applied to a draw with covariance M = L + P built from independent draws (nifty.re: one key split, likelihood "
+      "draw through left_sqrt_metric at the sampling position plus a standard-normal draw of the liquid shape, CG with likelihood.metric "
+      "+ identity at the same position, failure raises; classic SamplingEnabler: s ~ P^-1, n ~ L, (L+P) x = P s + n started at s with "
+      "the matching initial gradient, exact linear normal form). That the draws themselves have the stated covariances and that CG "
+      "converges is numerical/statistical and not decided.", TRUST, "DESIGN.md section 9.6")
 
-claim("C19", "def-use / delegation checks of SampledKLEnergyClass, ResidualSampleList.at and Samples.at",
+claim("C19", "def-use / delegation checks of SampledKLEnergyClass, ResidualSampleList.at, Samples.at, _kl_vg/_kl_met and the typed insert/remove table of kl_minimize",
       "Decides only the structural clauses: value and gradient come from one averaging pass of the Hamiltonian (constants inserted) "
       "over the samples, the metric from the average of the Hamiltonian's metric with want_metric=True, both divided by the global "
       "sample count; the optimised position excludes the constant keys; moving the expansion point passes residuals and sign flags on "
-      "unchanged. Numerical equality with sample averages is not decided.", TRUST, "DESIGN.md section 9.6")
+      "unchanged; in nifty.re the standard Hamiltonian is likelihood + 1/2<x,x> (metric + identity), _kl_vg/_kl_met map "
+      "value_and_grad / metric over pos + residual along axis 0 and reduce with the mean over that axis, and kl_minimize with constants "
+      "optimises only the liquid part (typed insert/remove table for value_and_grad, metric and result). Numerical equality with "
+      "sample averages is not decided.", TRUST, "DESIGN.md section 9.6")
 
 claim("C04", "def-use / dominance check of EnergyAdapter's constant handling",
       "Decides only the clause 'energies minimised with constant keys never see gradient components for those keys': with constants "
